@@ -701,7 +701,8 @@ def main():
         "R20.5 gate counter: only ever += 1, exactly where a new NeighborEntry is created; a known next hop reuses its gate, a new one takes the counter; "
         "R20.6 wiring: link_modules binds (module, next_module, ogate, igate) = (lookup, Update, gate_idx, 0) and (Update, Merge, 0, 0), the wrapper forwards them in order, the route is added with the same gate_idx; "
         "R20.7 reference count: +1 on every add that reached BESS, −1 after a successful BESS delete, Update module destroyed and cache entry removed exactly when the count reaches 0; "
-        "R20.8 a route is programmed only with a MAC that is present (truthiness test or a raising subscript)."
+        "R20.8 a route is programmed only with a MAC that is present (truthiness test or a raising subscript). "
+        "R20.11 RouteEntry's generated equality covers every field (no compare=False, no eq=False, no hand-written __eq__): the waiting lists find and drop routes by equality."
     )
     not_decided = ("the refinement between an arbitrary netlink event history and the BESS module graph; duplicate RTM_NEWROUTE events for one route "
                    "(the controller keeps no set of installed routes); the SIGHUP reconfigure path; failures inside BESS calls")
@@ -1156,6 +1157,48 @@ def run_rules(m, r):
                 r.check(name in allowed_droppers, "R20.10", fn(f), "waiting routes are dropped only when they are installed or deleted", m.pos(n), name,
                         f"{name} removes entries from the pending cache ({k}): routes that wait for this next hop are discarded without being installed")
     r.floor("R20.10 removals from the pending cache", n_drop, 2)
+
+    # ------------------------------------------------------------------ R20.11
+    # waiting routes are found, de-duplicated and removed by equality of RouteEntry (`in`, `remove`): two routes
+    # are the same only if next hop, interface, prefix and prefix length all agree. The generated __eq__ of the
+    # dataclass compares every field unless a field opts out or the class replaces it.
+    re_cls = None
+    for n in m.tree.body:
+        if isinstance(n, ast.ClassDef) and n.name == "RouteEntry":
+            re_cls = n
+    if re_cls is None:
+        # renamed: the record type with the four route fields
+        for n in m.tree.body:
+            if isinstance(n, ast.ClassDef) and len([x for x in n.body if isinstance(x, ast.AnnAssign)]) >= 4 and re_cls is None:
+                re_cls = n
+    if re_cls is None:
+        undecided("R20.11", "class RouteEntry not found")
+    deco_ok = False
+    for d in re_cls.decorator_list:
+        if ast.unparse(d) in ("dataclass", "dataclasses.dataclass"):
+            deco_ok = True
+        elif isinstance(d, ast.Call) and ast.unparse(d.func) in ("dataclass", "dataclasses.dataclass"):
+            deco_ok = True
+            for kw in d.keywords:
+                if kw.arg == "eq" and not (isinstance(kw.value, ast.Constant) and kw.value.value is True):
+                    deco_ok = False
+    r.check(deco_ok, "R20.11", "RouteEntry", "routes are compared field by field (dataclass equality)", m.pos(re_cls), "@dataclass", "RouteEntry is no longer a dataclass with generated equality: `in`/`remove` on the waiting lists compare by identity")
+    own_eq = [x.name for x in re_cls.body if isinstance(x, ast.FunctionDef) and x.name in ("__eq__", "__hash__", "__ne__")]
+    r.check(not own_eq, "R20.11", "RouteEntry", "no hand-written equality", m.pos(re_cls), "none", f"RouteEntry defines {own_eq}: the rule cannot tell which fields identify a route")
+    fields_seen = []
+    for st in re_cls.body:
+        if isinstance(st, ast.AnnAssign) and isinstance(st.target, ast.Name):
+            fields_seen.append(st.target.id)
+            opt_out = False
+            if isinstance(st.value, ast.Call) and ast.unparse(st.value.func) in ("field", "dataclasses.field"):
+                for kw in st.value.keywords:
+                    if kw.arg == "compare" and not (isinstance(kw.value, ast.Constant) and kw.value.value is True):
+                        opt_out = True
+            if "ClassVar" in ast.unparse(st.annotation):
+                opt_out = True
+            r.check(not opt_out, "R20.11", "RouteEntry", f"field {st.target.id} takes part in the comparison of routes", m.pos(st), "compared",
+                    f"{st.target.id} is left out of RouteEntry's equality: two different routes that differ only in it (10.0.0.0/8 and 10.0.0.0/16 through one next hop) count as one — the second is never queued, and deleting one drops the other from the waiting list")
+    r.floor("R20.11 fields of RouteEntry", len(fields_seen), 4)
 
     # ------------------------------------------------------------------ R20.8
     for f in (add_new, add_unres):
